@@ -68,7 +68,7 @@ func c17Cases(tier string, g *rand.Rand) [][]c17Peer {
 		one(c17Peer{Name: "p", Idx: "20", Mask: int32(uint32(1)<<b) | 1})
 	}
 	one(c17Peer{Name: "p", Idx: "20", Mask: -1})
-	for i := 0; i < tierN(tier, 12, 400); i++ {
+	for i := 0; i < tierN(tier, 12, 2400); i++ {
 		m := int32(g.Uint32())
 		if g.IntN(3) == 0 {
 			m &= int32(api.ValidEvents)
@@ -80,7 +80,7 @@ func c17Cases(tier string, g *rand.Rand) [][]c17Peer {
 		one(c17Peer{Name: "p", Idx: "30", Mask: 0, Stall: s})
 	}
 	// several bad ones ahead of the good one
-	for i := 0; i < tierN(tier, 10, 200); i++ {
+	for i := 0; i < tierN(tier, 10, 1200); i++ {
 		n := 2 + g.IntN(3)
 		var ps []c17Peer
 		silent := 0
